@@ -470,7 +470,7 @@ pub fn main(ctx: &Ctx) -> i32 {
             }
         });
     }
-    let rounds = ctx.tier.pick(200usize, 5000usize);
+    let rounds = ctx.tier.pick(600usize, 5000usize);
     par(4, |w| {
         let mut rng = Rng::lane(ctx.seed, 800 + w as u64);
         let mut r = w;
